@@ -371,7 +371,12 @@ func main() {
 	b.WriteString("\n")
 	b.WriteString(leanStrList("hsServiceCases", serviceCases(mt)))
 	b.WriteString("\n")
-	if cc := findFunc(mt, "*MTProto", "CreateConnection"); cc != nil {
+	// since the connection is replaced under connMutex (D31) the work of CreateConnection is in createConnection
+	cc := findFunc(mt, "*MTProto", "createConnection")
+	if cc == nil {
+		cc = findFunc(mt, "*MTProto", "CreateConnection")
+	}
+	if cc != nil {
 		b.WriteString(leanStrList("hsCreateConn", skeleton(cc)))
 	} else {
 		b.WriteString(leanStrList("hsCreateConn", []string{"missing"}))
